@@ -9,8 +9,9 @@
     modSound, modEst (Eisel–Lemire: Props/LemireSound, Props/NoAllOnes), slow (Props/SlowPath)
 
   Result: `parseCorrect_noncompact` — no hypothesis left for the non-compact configurations.
-  For the compact (Bellerophon) configurations the contracts about `bellerophon genBel F` are
-  collected in `OpenCompact F`.
+  For the compact (Bellerophon) configurations totality and the decline range are discharged too
+  (Proofs/Bellerophon); the two remaining contracts about `bellerophon genBel F` (soundness of a
+  definite answer, hand-off contract of a declined one) are collected in `OpenCompact F`.
 -/
 import MinLex.Props.Main
 import MinLex.Props.ParseNumber
@@ -19,6 +20,7 @@ import MinLex.Props.LemireSound
 import MinLex.Props.NoAllOnes
 import MinLex.Props.SlowPath
 import MinLex.Props.C04
+import MinLex.Proofs.Bellerophon
 import Mathlib.Tactic.Ring
 import Mathlib.Tactic.Linarith
 import Mathlib.Tactic.Positivity
@@ -195,37 +197,60 @@ theorem parseCorrect_noncompact (cfg : Cfg) (hc : cfg.compact = false) {F : Floa
     (hF : F = Gen.F32 ∨ F = Gen.F64) : ParseCorrect (genEnv cfg) F :=
   parseCorrect_of_hyps (hyps_noncompact cfg hc hF)
 
--- the moderate stage is exercised (definite and declined answers)
+-- the moderate stage is exercised
 example : (moderatePath (genEnv ⟨false, true, true⟩) Gen.F64 ⟨-5, 1234567, false⟩).isSome = true := by
   decide +kernel
 
 -- ------------------------------------------------------------------ compact: the open contracts
-/-- The stage contracts that are NOT discharged here for the compact (Bellerophon) configurations.
-    They speak about `bellerophon genBel F` only (no dependence on the other features). -/
+/-- Bellerophon never takes its index-panic branch (all three table look-ups are guarded):
+    `Bel.bellerophon_total`, for every `Number` and every format record. -/
+theorem modTotal_compact (cfg : Cfg) (hc : cfg.compact = true) (F : FloatC) :
+    ∀ n, NumOK n → ∃ fp, moderatePath (genEnv cfg) F n = some fp := by
+  intro n _
+  rw [moderatePath_compact cfg hc]
+  exact Bel.bellerophon_total F n
+
+/-- Bellerophon declines (`exp < 0`) only on its main path: non-zero significand and
+    `−350 ≤ q ≤ 309` (from `Bel.bellerophon_cases`; the early returns have `exp ≥ 0`). -/
+theorem bellerophon_range {F : FloatC} (hinf : 0 ≤ F.infinitePower) {n : Number} {fp : ExtFloat}
+    (h : bellerophon genBel F n = some fp) (hneg : fp.exp < 0) :
+    n.mantissa ≠ 0 ∧ -350 ≤ n.exponent ∧ n.exponent ≤ 309 := by
+  rcases Bel.bellerophon_cases F n with ⟨_, h1⟩ | ⟨_, _, h2⟩ | ⟨hm, s, l, _, _, hs, hl, hq, _⟩
+  · rw [h1] at h; cases h; exact absurd hneg (by decide)
+  · rw [h2] at h; cases h; exact absurd hneg (by simp only []; omega)
+  · exact ⟨hm, by omega, by omega⟩
+
+theorem modRange_compact (cfg : Cfg) (hc : cfg.compact = true) {F : FloatC}
+    (hF : F = Gen.F32 ∨ F = Gen.F64) :
+    ∀ n fp, NumOK n → moderatePath (genEnv cfg) F n = some fp → fp.exp < 0 →
+      n.mantissa ≠ 0 ∧ -400 ≤ n.exponent ∧ n.exponent ≤ 400 := by
+  intro n fp _ hmp hneg
+  rw [moderatePath_compact cfg hc] at hmp
+  have hinf : 0 ≤ F.infinitePower := by rcases hF with rfl | rfl <;> decide
+  obtain ⟨h1, h2, h3⟩ := bellerophon_range hinf hmp hneg
+  exact ⟨h1, by omega, by omega⟩
+
+/-- The two stage contracts that are NOT discharged here for the compact (Bellerophon)
+    configurations.  They speak about `bellerophon genBel F` only (no dependence on the other
+    features).  Totality and the decline range of Bellerophon ARE discharged (above). -/
 structure OpenCompact (F : FloatC) : Prop where
-  /-- Bellerophon never takes its index-panic branch (all look-ups are guarded) -/
-  modTotal : ∀ n, NumOK n → ∃ fp, bellerophon genBel F n = some fp
   /-- C11: a definite answer of Bellerophon is right -/
   modSound : ∀ n v fp, Denotes n v → NumOK n → bellerophon genBel F n = some fp → 0 ≤ fp.exp →
     extendedToFloat F fp = rne F.fmt v
   /-- a declined answer satisfies the hand-off contract -/
   modEst : ∀ n v fp, Denotes n v → NumOK n → bellerophon genBel F n = some fp → fp.exp < 0 →
     EstOK F ⟨fp.mant, wrapI32 (fp.exp - F.invalidFp)⟩ v
-  /-- Bellerophon declines only on non-zero significands with a moderate decimal exponent -/
-  modRange : ∀ n fp, NumOK n → bellerophon genBel F n = some fp → fp.exp < 0 →
-    n.mantissa ≠ 0 ∧ -400 ≤ n.exponent ∧ n.exponent ≤ 400
 
 theorem hyps_compact (cfg : Cfg) (hc : cfg.compact = true) {F : FloatC}
     (hF : F = Gen.F32 ∨ F = Gen.F64) (h : OpenCompact F) : Hyps (genEnv cfg) F :=
   { pn := pn_genEnv cfg
     fast := fast_genEnv cfg hF
-    modTotal := fun n hn => by rw [moderatePath_compact cfg hc]; exact h.modTotal n hn
+    modTotal := modTotal_compact cfg hc F
     modSound := fun n v fp hd hn hmp => by
       rw [moderatePath_compact cfg hc] at hmp; exact h.modSound n v fp hd hn hmp
     modEst := fun n v fp hd hn hmp => by
       rw [moderatePath_compact cfg hc] at hmp; exact h.modEst n v fp hd hn hmp
-    modRange := fun n fp hn hmp => by
-      rw [moderatePath_compact cfg hc] at hmp; exact h.modRange n fp hn hmp
+    modRange := modRange_compact cfg hc hF
     slow := SlowPath.slow_correct_range400 cfg hF }
 
 theorem parseCorrect_compact (cfg : Cfg) (hc : cfg.compact = true) {F : FloatC}
@@ -242,13 +267,10 @@ theorem parseCorrect_of_open (cfg : Cfg) {F : FloatC} (hF : F = Gen.F32 ∨ F = 
 /-- the open contracts are exactly what `Hyps` of a compact configuration contains -/
 theorem openCompact_of_hyps (cfg : Cfg) (hc : cfg.compact = true) {F : FloatC}
     (h : Hyps (genEnv cfg) F) : OpenCompact F :=
-  { modTotal := fun n hn => by rw [← moderatePath_compact cfg hc]; exact h.modTotal n hn
-    modSound := fun n v fp hd hn hmp => by
+  { modSound := fun n v fp hd hn hmp => by
       rw [← moderatePath_compact cfg hc] at hmp; exact h.modSound n v fp hd hn hmp
     modEst := fun n v fp hd hn hmp => by
-      rw [← moderatePath_compact cfg hc] at hmp; exact h.modEst n v fp hd hn hmp
-    modRange := fun n fp hn hmp => by
-      rw [← moderatePath_compact cfg hc] at hmp; exact h.modRange n fp hn hmp }
+      rw [← moderatePath_compact cfg hc] at hmp; exact h.modEst n v fp hd hn hmp }
 
 -- ------------------------------------------------------------------ decimal-value helpers (C06, C07)
 theorem ofDigits_replicate_zero (k : Nat) : ofDigits (List.replicate k 48) = 0 := by
